@@ -162,6 +162,20 @@ def run_property(modname, tier="quick", only=None, max_shards=None, verbose=Fals
     _SPECS.clear()
     for s in specs:
         _SPECS[s.name] = s
+    # ---- oracle lemmas (closed forms used instead of quantifiers) are re-proved on every run
+    lemma_log = []
+    problems = []          # reasons for an inconclusive verdict
+    if hasattr(mod, "lemmas"):
+        import z3
+        for name, formula in mod.lemmas():
+            s = z3.Solver()
+            s.set("timeout", 120000)
+            s.add(formula)
+            tl = time.time()
+            res = str(s.check())
+            lemma_log.append(dict(lemma=name, result=res, solver_s=round(time.time() - tl, 3)))
+            if res != "unsat":
+                problems.append(f"oracle lemma not proved ({res}): {name}")
     rnd = random.Random(seed)
     jobs = []
     for s in specs:
@@ -177,6 +191,8 @@ def run_property(modname, tier="quick", only=None, max_shards=None, verbose=Fals
                         inconclusive=[], paths_data=[], twin_sat=0, cpu_s=0.0) for s in specs}
     stats_tot = dict(paths=0, forks=0, fork_checks=0, verdict_checks=0, solver_s=0.0, forced=0, fast=0, cache_hits=0)
     entered = set()
+    import logging
+    logging.disable(logging.CRITICAL)      # library warnings carry symbolic text; harnesses that judge log records re-enable
     ctxmp = mp.get_context("fork")
     with ctxmp.Pool(min(NPROC, max(1, len(jobs)))) as pool:
         for sname, idx, pins, twin, res, dt in pool.imap_unordered(_run_shard, jobs, chunksize=1):
@@ -209,7 +225,6 @@ def run_property(modname, tier="quick", only=None, max_shards=None, verbose=Fals
                       f"{'INCONCLUSIVE ' + res.inconclusive if res.inconclusive else ''} {dt:.1f}s", flush=True)
     explore_s = time.time() - t0
 
-    problems = []          # reasons for an inconclusive verdict
     for s in specs:
         a = agg[s.name]
         for r in a["inconclusive"][:5]:
@@ -337,7 +352,7 @@ def run_property(modname, tier="quick", only=None, max_shards=None, verbose=Fals
                                     counterexamples=len(agg[s.name]["violations"])) for s in specs},
             queries=dict(fork_checks=stats_tot["fork_checks"], verdict_checks=stats_tot["verdict_checks"],
                          decided_by_interval_facts=stats_tot["fast"], cache_hits=stats_tot["cache_hits"]),
-            solver_s=round(stats_tot["solver_s"], 2), solver="z3 " + _z3v(),
+            lemmas=lemma_log, solver_s=round(stats_tot["solver_s"], 2), solver="z3 " + _z3v(),
             paths_validated=len(vjobs), validation_mismatches=len(mismatches),
             validation_skipped_set_order_not_exhibited=order_mismatch,
             counterexamples_replayed=len(rjobs), counterexample_groups=len(groups),
